@@ -56,6 +56,29 @@ class C16(InvProp):
                            "classes/d1/user.yml": cls("d1.user", ["${relname}"]), "classes/ok.yml": cls("ok"),
                            "nodes/n.yml": cls("n", ["base", "d1.user", "ok"])}, **cfg2)
             yield c
+            if i % 4 == 3:
+                # the same settings read from a config file, keys written in every order
+                import copy
+                c3 = copy.deepcopy(c)
+                opts = [["ignore_class_notfound", c3["config"].get("ignore_class_notfound", False)]]
+                if "patterns" in c3["config"]:
+                    opts.append(["ignore_class_notfound_regexp", c3["config"]["patterns"]])
+                opts.append(["compose_node_name", c3["config"].get("compose_node_name", False)])
+                if r.chance(1, 2):
+                    opts.append(["unknown_option", "x"])
+                c3["config"]["file_options"] = r.shuffle(opts)
+                c3["fam"] = "config_file"
+                yield c3
+            if i % 4 == 1:
+                # the pattern list is replaced on the live instance (also by a list that does not compile, which must
+                # leave the previous one in force); behaviour must follow the reported settings
+                import copy
+                c2 = copy.deepcopy(c)
+                c2["config"]["ignore_class_notfound"] = True
+                pats = [q for q in PATS if q is not None]
+                c2["lifecycle"] = r.choice([[{"patterns": r.choice(pats)}], [{"patterns": ["("]}], [{"patterns": r.choice(pats)}, {"render_inventory": 1}, {"patterns": r.choice(pats)}],
+                                            [{"patterns": r.choice(pats)}, {"patterns": ["[a"]}]])
+                yield c2
             # twin with every missing include removed: compared in post_check
             if cfg["ignore_class_notfound"] and p in (None, [".*"]):
                 t = {"op": "inventory", "config": dict(c["config"]), "files": [], "twin_of": core.case_hash(c)}
